@@ -18,7 +18,7 @@ HEAP, DOM = 'Heap', 'Dom'
 # the build fold starts at (buf0, l0, p0, Hb, Db) with l0 == p0 (appending at the end of the stream); the parse fold reads
 # (pbuf, plen) from q0 == p0 in the scope (Hp, Dp); `base` is the absolute offset of position 0 (the same for both streams)
 BASE_B = [('buf0', t.ARR), ('l0', t.INT), ('p0', t.INT), ('Hb', HEAP), ('Db', DOM), ('v', t.VAL), ('base', t.INT), ('c', t.INT)]
-BASE_P = [('pbuf', t.ARR), ('plen', t.INT), ('q0', t.INT), ('Hp', HEAP), ('Dp', DOM)]
+BASE_P = [('pbuf', t.ARR), ('plen', t.INT), ('q0', t.INT), ('Hp', HEAP), ('Dp', DOM), ('cp', t.INT)]      # cp: the scope the parse runs in (a different one from the build's)
 
 
 def b0(v):
@@ -63,7 +63,7 @@ class Family:
         return t.app(self.bfold, 'BS', v[self.key], k, b0(v), v['v'], v['base'], v['c'])
 
     def PF(self, v, k):
-        return t.app(self.pfold, 'PS', v[self.key], k, s0(v), v['pbuf'], v['plen'], v['base'], v['c'])
+        return t.app(self.pfold, 'PS', v[self.key], k, s0(v), v['pbuf'], v['plen'], v['base'], v['cp'])
 
     def good(self, s):
         """the parse fold is still running"""
@@ -71,6 +71,10 @@ class Family:
 
     def B(self, fn, sort, v, i):
         return t.app(fn, sort, *self.bargs(v, i))
+
+    def step_ok(self, v, i):
+        """step i of the build fold goes through (the member builds; Struct: and a value for it is available)"""
+        return self.B('B_ok', t.BOOL, v, i)
 
     def P(self, fn, sort, v, i):
         return t.app(fn, sort, *self.pargs(v, i))
@@ -91,7 +95,7 @@ class Family:
         i = t.sub(k, t.ONE)
         s, s1 = self.BF(v, i), self.BF(v, k)
         n = self.B('B_len', t.INT, v, i)
-        ok = self.B('B_ok', t.BOOL, v, i)
+        ok = self.step_ok(v, i)
         good = t.and_(bs('bs_ok', s1), t.eq(bs('bs_buf', s1), self.written(v, i)),
                       t.eq(bs('bs_len', s1), t.ite(t.gt(n, t.ZERO), t.ite(t.ge(bs('bs_len', s), t.add(bs('bs_pos', s), n)), bs('bs_len', s), t.add(bs('bs_pos', s), n)), bs('bs_len', s))),
                       t.eq(bs('bs_pos', s1), t.add(bs('bs_pos', s), n)))
@@ -135,7 +139,7 @@ class Family:
 
         Lemma(nm + '_ok_prefix', BV + [('k', t.INT)],
               lambda v: t.implies(t.and_(t.ge(v['k'], t.ONE), bs('bs_ok', F.BF(v, v['k']))),
-                                  t.and_(bs('bs_ok', F.BF(v, t.sub(v['k'], t.ONE))), F.B('B_ok', t.BOOL, v, t.sub(v['k'], t.ONE)))),
+                                  t.and_(bs('bs_ok', F.BF(v, t.sub(v['k'], t.ONE))), F.step_ok(v, t.sub(v['k'], t.ONE)), F.B('B_ok', t.BOOL, v, t.sub(v['k'], t.ONE)))),
               tags=T, defs=lambda v: [F.def_b_step(v, v['k'])], doc='a build fold that succeeded over k steps succeeded over k-1, and step k-1 was built')
         Lemma(nm + '_ok_mono', BV + [('j', t.INT), ('d', t.INT)],
               lambda v: t.implies(t.and_(t.ge(v['j'], t.ZERO), t.ge(v['d'], t.ZERO), bs('bs_ok', F.BF(v, t.add(v['j'], v['d'])))), bs('bs_ok', F.BF(v, v['j']))),
@@ -174,9 +178,12 @@ class Family:
 
         def values(v):
             j, K = v['j'], v['K']
-            av = t.app(F.pval, t.VAL, v[F.key], j, s0(v), v['pbuf'], v['plen'], v['base'], v['c'])
+            direct = t.and_(F.P('P_ok', t.BOOL, v, j), t.app('pyeq', t.BOOL, F.P('P_val', t.VAL, v, j), F.B('B_ret', t.VAL, v, j)))
+            if F.pval is None:
+                return t.implies(t.and_(t.le(t.ZERO, j), t.lt(j, K), F.premises(v)), direct)
+            av = t.app(F.pval, t.VAL, v[F.key], j, s0(v), v['pbuf'], v['plen'], v['base'], v['cp'])
             br = t.app(F.bret, t.VAL, v[F.key], j, b0(v), v['v'], v['base'], v['c'])
-            return t.implies(t.and_(t.le(t.ZERO, j), t.lt(j, K), F.premises(v)), t.app('pyeq', t.BOOL, av, br))
+            return t.implies(t.and_(t.le(t.ZERO, j), t.lt(j, K), F.premises(v)), t.and_(direct, t.app('pyeq', t.BOOL, av, br)))
 
         def values_hints(v):
             j, K = v['j'], v['K']
@@ -199,9 +206,9 @@ class Family:
         pok, pstop, q0, Hp, Dp = s0_.args
         if ok.smt() != 'true' or pok.smt() != 'true' or pstop.smt() != 'false':
             return None
-        if base.smt() != base2.smt() or c.smt() != c2.smt():
+        if base.smt() != base2.smt():
             return None
-        return {self.key: m, 'buf0': buf0, 'l0': l0, 'p0': p0, 'Hb': Hb, 'Db': Db, 'v': v_, 'base': base, 'c': c, 'pbuf': pbuf, 'plen': plen, 'q0': q0, 'Hp': Hp, 'Dp': Dp}, k, K
+        return {self.key: m, 'buf0': buf0, 'l0': l0, 'p0': p0, 'Hb': Hb, 'Db': Db, 'v': v_, 'base': base, 'c': c, 'pbuf': pbuf, 'plen': plen, 'q0': q0, 'Hp': Hp, 'Dp': Dp, 'cp': c2}, k, K
 
     def post_hints(self, ob):
         terms = list(ob.hyps) + [ob.goal]
@@ -254,8 +261,8 @@ class ArrayFamily(Family):
 
     def pargs(self, v, i):
         s = self.PF(v, i)
-        H0, D0 = _indexed(ps('ps_H', s), ps('ps_D', s), v['c'], i)
-        return (v['m'], v['pbuf'], v['plen'], ps('ps_pos', s), v['base'], H0, D0, v['c'])
+        H0, D0 = _indexed(ps('ps_H', s), ps('ps_D', s), v['cp'], i)
+        return (v['m'], v['pbuf'], v['plen'], ps('ps_pos', s), v['base'], H0, D0, v['cp'])
 
 
 class SequenceFamily(Family):
@@ -271,10 +278,74 @@ class SequenceFamily(Family):
 
     def pargs(self, v, i):
         s = self.PF(v, i)
-        return (t.app('sl_at', t.INT, v['sl'], i), v['pbuf'], v['plen'], ps('ps_pos', s), v['base'], ps('ps_H', s), ps('ps_D', s), v['c'])
+        return (t.app('sl_at', t.INT, v['sl'], i), v['pbuf'], v['plen'], ps('ps_pos', s), v['base'], ps('ps_H', s), ps('ps_D', s), v['cp'])
+
+
+class StructFamily(Family):
+    """Struct: the build fold reads each member's value from the supplied container (address oa) and the parse fold writes each
+    named member's value into the result container (address r) as well as into the nested scope"""
+
+    def __init__(self):
+        Family.__init__(self, 'struct', 'sl', 'bfold', 'pfold', None, None)
+        self.BV = [('sl', t.INT)] + [x for x in BASE_B if x[0] != 'v'] + [('oa', t.INT)]
+        self.PV = BASE_P + [('r', t.INT)]
+
+    def BF(self, v, k):
+        return t.app('bfold', 'BS', v['sl'], k, b0(v), v['base'], v['c'], v['oa'])
+
+    def PF(self, v, k):
+        return t.app('pfold', 'PS', v['sl'], k, s0(v), v['pbuf'], v['plen'], v['base'], v['cp'], v['r'])
+
+    def good(self, s):
+        return t.and_(ps('ps_ok', s), t.not_(ps('ps_stop', s)))
+
+    def member(self, v, i):
+        return t.app('sl_at', t.INT, v['sl'], i)
+
+    def bargs(self, v, i):
+        s = self.BF(v, i)
+        m = self.member(v, i)
+        val = t.app('bval', t.VAL, m, bs('bs_H', s), bs('bs_D', s), v['oa'])
+        H1, D1 = _named(bs('bs_H', s), bs('bs_D', s), v['c'], m, val)
+        return (m, val, t.add(bs('bs_pos', s), v['base']), H1, D1, v['c'])
+
+    def step_ok(self, v, i):
+        s = self.BF(v, i)
+        return t.and_(t.app('bhas', t.BOOL, self.member(v, i), bs('bs_D', s), v['oa']), self.B('B_ok', t.BOOL, v, i))
+
+    def pargs(self, v, i):
+        s = self.PF(v, i)
+        return (self.member(v, i), v['pbuf'], v['plen'], ps('ps_pos', s), v['base'], ps('ps_H', s), ps('ps_D', s), v['cp'])
+
+    def match(self, bf, pf):
+        sl, K, b0_, base, c, oa = bf.args
+        sl2, k, s0_, pbuf, plen, base2, c2, r = pf.args
+        if sl.smt() != sl2.smt() or b0_.op != 'mkBS' or s0_.op != 'mkPS':
+            return None
+        ok, buf0, l0, p0, Hb, Db = b0_.args
+        pok, pstop, q0, Hp, Dp = s0_.args
+        if ok.smt() != 'true' or pok.smt() != 'true' or pstop.smt() != 'false' or base.smt() != base2.smt():
+            return None
+        # the two folds run in different nested scopes (one per call): the lemma is stated for one scope address, the hypothesis
+        # "context agreement" of the round-trip trait makes the scope irrelevant to the members - so both addresses are admitted
+        return {'sl': sl, 'buf0': buf0, 'l0': l0, 'p0': p0, 'Hb': Hb, 'Db': Db, 'base': base, 'c': c, 'oa': oa, 'pbuf': pbuf, 'plen': plen, 'q0': q0, 'Hp': Hp, 'Dp': Dp, 'r': r, 'cp': c2}, k, K
+
+
+def no_stop_on_build(src):
+    """domain restriction of the member-list round trip (listed in the evidence): no member refuses to build with StopFieldError
+    (a StopIf inside the list ends the build early; what was written then parses back only if the same condition holds when
+    parsing, which is a statement about the user's condition, not about the library)"""
+    codes = sorted(src.exc_code[n] for n in src.exc_descendants('StopFieldError'))
+
+    def hints(ob):
+        apps = ghost.find_apps(list(ob.hyps) + [ob.goal], ('B_exc',))
+        return [t.not_(t.or_(*[t.eq(a, I(c)) for c in codes])) for a in apps['B_exc'].values() if not ghost.has_bound_var(a)]
+    return hints
 
 
 ARRAY = ArrayFamily('array', 'm', 'abfold', 'afold', 'aval', 'abret').make()
 SEQUENCE = SequenceFamily('sequence', 'sl', 'qbfold', 'qfold', 'qval', 'qbret').make()
 ghost.POST_HINTS['Array'] = ARRAY.post_hints
-ghost.POST_HINTS['Sequence'] = SEQUENCE.post_hints
+def install(src):
+    nostop = no_stop_on_build(src)
+    ghost.POST_HINTS['Sequence'] = lambda ob: SEQUENCE.post_hints(ob) + nostop(ob)
